@@ -152,7 +152,9 @@ def run_case(ctx, index):
     biom = ctx.biom
     big = index % 4 == 0
     spec = gen.gen_spec(r, max_n=12 if big else 5, max_m=12 if big else 5,
-                        allow_empty_text=True)
+                        allow_empty_text=True,
+                        id_classes=['reserved'] if index % 10 in (3, 4)
+                        and r.random() < .5 else None)
     variant = ['hdf5', 'hdf5-nomd', 'json', 'cli-hdf5', 'cli-json'][index % 5]
     axis = r.choice(['sample', 'observation'])
     ids = spec.ids(axis)
